@@ -60,3 +60,23 @@ refine(U + "DontRun.__call__#lsc", "ext.$LSC.__call__", params={"_": "ref:Abstra
 refine(L + "AllChildrenStopped.__call__", "ext.$LSC.__call__",
        ensures=[cl("verdict", "result == (len(deme._children) > 0 and forall(lambda i: imp(0 <= i < len(deme._children), "
                    "not deme._children[i]._active)))", tags="C06")])
+
+# a non-root deme that has been idle for more than n metaepochs (written from the class' documentation)
+macro("IdleFor", ["d", "step", "n"], "not d._active and step > d._started_at + (len(d._history) - 1) + n")
+refine(G + "NoActiveNonrootDemes.__call__", "ext.$GSC.__call__", modifies=[],
+       loops={0: dict(index="a", invariant=[
+                  cl("inv_levels_before", "forall(lambda l: imp(1 <= l < 1 + a, len(tree._levels[l]) > 0 and "
+                     "forall(lambda i: imp(0 <= i < len(tree._levels[l]), IdleFor(tree._levels[l][i], tree.metaepoch_count, self.n_metaepochs)), "
+                     "pat=tree._levels[l][i])), pat=tree._levels[l])"),
+                  cl("inv_step", "step == tree.metaepoch_count")]),
+              1: dict(index="b", invariant=[
+                  cl("inv_levels_before", "forall(lambda l: imp(1 <= l < 1 + a, len(tree._levels[l]) > 0 and "
+                     "forall(lambda i: imp(0 <= i < len(tree._levels[l]), IdleFor(tree._levels[l][i], tree.metaepoch_count, self.n_metaepochs)), "
+                     "pat=tree._levels[l][i])), pat=tree._levels[l])"),
+                  cl("inv_step", "step == tree.metaepoch_count and level_no == 1 + a and 1 <= level_no < len(tree._levels) "
+                     "and len(tree._levels[level_no]) > 0"),
+                  cl("inv_demes_before", "forall(lambda i: imp(0 <= i < b, IdleFor(tree._levels[level_no][i], step, self.n_metaepochs)), "
+                     "pat=tree._levels[level_no][i])")])},
+       ensures=[cl("verdict", "result == forall(lambda l: imp(1 <= l < len(tree._levels), len(tree._levels[l]) > 0 and "
+                   "forall(lambda i: imp(0 <= i < len(tree._levels[l]), IdleFor(tree._levels[l][i], tree.metaepoch_count, self.n_metaepochs)), "
+                   "pat=tree._levels[l][i])), pat=tree._levels[l])", tags="C05")])
